@@ -11,6 +11,12 @@ CHECKS = {
  'C07': ('symbolic execution with the size field symbolic over its full range; virtual_size == declared size decided by z3 per path',
          'Size fields 64-bit symbolic, ISO block sizes enumerated as configurations, VHDX layouts with symbolic region/item offsets; truncated streams give 0.'),
 }
+CHECKS.update({
+ 'C03': ('bounded symbolic execution of the real InspectWrapper with all ten real inspectors over a polyglot content family; stream length and read sizes symbolic; exclusivity / raw / totality / no-revision obligations decided by z3 per path',
+         'Content family = forks over signature overlays (not arbitrary bytes); lengths and read sizes are symbolic integers; allowed_formats symbolic subset. Reference signature predicates in spec/formats.py.'),
+ 'C06': ('bounded symbolic execution of the real InspectWrapper over stub inspectors with symbolic fault/complete/match bits per inspector and chunk, symbolic chunk sizes and uninterpreted contents',
+         'All fault schedules inside the bound (m stubs x j chunks) are covered by forking on symbolic bits; stream contents are uninterpreted, sizes symbolic.'),
+})
 NA = {
 }
 def main():
